@@ -158,15 +158,11 @@ pub fn create_number_constructor(interp: &mut Interpreter) -> Gc<JsObject> {
 /// Number.parseFloat - same as global parseFloat
 pub fn number_parse_float(
     interp: &mut Interpreter,
-    _this: JsValue,
+    this: JsValue,
     args: &[JsValue],
 ) -> Result<Guarded, JsError> {
-    let arg = args.first().cloned().unwrap_or(JsValue::Undefined);
-    let s = interp.to_js_string(&arg).to_string();
-
-    let trimmed = s.trim_start();
-    let result = trimmed.parse::<f64>().unwrap_or(f64::NAN);
-    Ok(Guarded::unguarded(JsValue::Number(result)))
+    // Number.parseFloat is the same function as the global parseFloat
+    super::global::global_parse_float(interp, this, args)
 }
 
 /// Number.parseInt - same as global parseInt
